@@ -128,6 +128,18 @@ func (fr *frame) get(key ssa.Value) value {
 		if r, ok := fr.i.globals[key]; ok {
 			return r
 		}
+		if n := key.Name(); len(n) > 3 && n[0] == 'S' && n[1] == 't' && n[2] == 'd' {
+			if v, ok := osGlobalValue(fr, key); ok {
+				ck := "osglobal:" + n
+				if c, ok := fr.i.p.extra[ck].(*value); ok {
+					return c
+				}
+				c := new(value)
+				*c = v
+				fr.i.p.extra[ck] = c
+				return c
+			}
+		}
 		if r, ok := fr.i.baseGlobals[key]; ok {
 			return r
 		}
